@@ -168,8 +168,9 @@ Proof. exact val_port_range. Qed.
 Print Assumptions C18_validate_port_range.
 
 (* Server configurations accepted by ValidateServerConfig have every port that function range-checks
-   (webServer.port, bindPort, kcpBindPort, quicBindPort, vhostHTTPPort, vhostHTTPSPort, tcpmuxHTTPConnectPort)
-   in 0..65535 — negative values included — and a complete webServer.tls block *)
+   (webServer.port, bindPort, kcpBindPort, quicBindPort, vhostHTTPPort, vhostHTTPSPort, tcpmuxHTTPConnectPort and,
+   since the repair 8be3cd7, sshTunnelGateway.bindPort) in 0..65535; client common configurations accepted by
+   ValidateClientCommonConfig have webServer.port and (since 8be3cd7) serverPort in 0..65535 — negative values included — and a complete webServer.tls block *)
 Theorem C18_server_validated_ports_in_range : forall c,
   vs_server_ok c = true -> forall name p, In (name, p) (vs_server_ports c) -> 0 <= p <= 65535.
 Proof. exact server_validated_ports_in_range. Qed.
@@ -199,6 +200,22 @@ Theorem C18_port_fields_classified :
   (forall g, In g vs_checked_ports \/ In g vs_unchecked_ports -> In g vs_port_leaves).
 Proof. exact (ports_classified_sound (eq_refl true <: vs_ports_classified = true)). Qed.
 Print Assumptions C18_port_fields_classified.
+
+(* (8be3cd7) a tcp or udp proxy accepted by CLIENT-side validation has its remotePort in 0..65535.  The
+   server-side path (NewProxyConfigurerFromMsg / ValidateProxyConfigurerForServer) is unchanged and does not
+   look at the remote port — there the port manager decides (C09). *)
+Theorem C18_validated_remote_port_in_range : forall ann_ok plugin_ok pc,
+  val_proxy_client ann_ok plugin_ok pc = VOk ->
+  (forall c, pc = Cfg_TCPProxyConfig c -> 0 <= TCPProxyConfig_RemotePort c <= 65535) /\
+  (forall c, pc = Cfg_UDPProxyConfig c -> 0 <= UDPProxyConfig_RemotePort c <= 65535).
+Proof. exact validated_remote_port_in_range. Qed.
+Print Assumptions C18_validated_remote_port_in_range.
+
+Theorem C18_server_side_ignores_remote_port : forall ann_ok s c p,
+  val_proxy_server ann_ok (Cfg_TCPProxyConfig (set_TCPProxyConfig_RemotePort p c)) s =
+  val_proxy_server ann_ok (Cfg_TCPProxyConfig c) s.
+Proof. exact server_side_ignores_remote_port. Qed.
+Print Assumptions C18_server_side_ignores_remote_port.
 
 (* a proxy accepted by client-side validation that forwards to a local port (no plugin) has that
    port in 0..65535 *)
